@@ -246,3 +246,6 @@ CHECKS["C17"] = dict(
     parts=[dict(name="life", pkg="internal/corerad", test="TestVerifC17", shards=S16, env={"VERIF_PART": "life"}, **DET),
            dict(name="race", pkg="internal/corerad", test="TestVerifC17", race=True, shards=S8, gomaxprocs=4, env={"VERIF_PART": "race"})],
 )
+NETNS = ["$VERIF/tools/netns.sh"]
+CHECKS["C11"]["parts"].append(dict(name="netns", pkg="internal/system", test="TestVerifC11Netns", shards={"quick": 4, "thorough": 8}, wrap=NETNS, gogc_off=True,
+                                   env={"VERIF_IN_NETNS_EXPECTED": "1"}, timeout_s={"quick": 300, "thorough": 1800}))
